@@ -19,7 +19,28 @@ type c02MapEntry struct {
 	VP   int
 	Cred int
 	OOR  bool // out-of-range index
+	// Outside: the entry's path does not lead into verifiableCredential but to this extra member of the presentation
+	// (which holds something that looks like the credential mapped honestly, see forged_map_outside)
+	Outside *c02Extra
 }
+
+// c02Extra is a member of a presentation (JWT: of the 'vp' claim; JSON-LD: of the document, added after signing) that
+// the presentation data model does not know: no verifier looks at it, a JSON path of a submission can point at it.
+type c02Extra struct {
+	Name string       // member name
+	Arr  bool         // the member is an array whose first element is the value
+	Cred *c02CredPlan // the value: a credential-shaped object (ldp_vc) or string (jwt_vc) that nobody verifies
+}
+
+func (e *c02Extra) path() string {
+	if e.Arr {
+		return "$." + e.Name + "[0]"
+	}
+	return "$." + e.Name
+}
+
+// c02ExtraMembers: names for such members (none is a member of the presentation data model; one resembles one)
+var c02ExtraMembers = []string{"attachment", "evidence", "verifiableCredentials", "credentials"}
 
 // c02Request is one presentation request: the vp_token-bearer token request, or one direct_post leg of OpenID4VP.
 type c02Request struct {
@@ -328,6 +349,50 @@ func c02ApplyPresentationDefect(c c02Case, r *c02Request, d c02Defect, aud strin
 			e.Cred = r.ensureDecoy(c)
 			r.Map = append(r.Map, e)
 		}
+	case "forged_map_outside":
+		// The descriptor map names the right descriptor, but its path leads OUTSIDE verifiableCredential: to an extra
+		// member of the presentation that holds an altered copy of the genuine credential (same issuer, subject, kind and -
+		// mostly - the same id; other claim values; "signed" by a key that is not the issuer's). The genuine credential is
+		// still presented and verifies; the claims of a token would come from where the path points.
+		if len(r.Map) == 0 {
+			return false
+		}
+		k := d.Arg % len(r.Map)
+		e := r.Map[k]
+		vp := r.VPs[e.VP]
+		if e.OOR || e.Outside != nil || e.Cred >= len(vp.Creds) {
+			return false
+		}
+		genuine := vp.Creds[e.Cred]
+		fc := &c02CredPlan{Kind: genuine.Kind, Subject: genuine.Subject, Seq: genuine.Seq, BadSig: true, Attrs: map[string]any{"forged_extra": true}}
+		fc.Format = []string{vc.JSONLDCredentialProofFormat, vc.JWTCredentialProofFormat}[(d.Arg+d.Arg/4)%2]
+		switch []string{"same", "same", "fresh", "same", "none", "same", "same"}[(d.Arg/4)%7] {
+		case "fresh":
+			*r.seq++
+			fc.Seq = *r.seq
+		case "none":
+			fc.NoID = true
+		}
+		for _, desc := range r.PD.Descs {
+			if desc.ID != e.ID {
+				continue
+			}
+			for i, f := range desc.Fields {
+				a := c02Attr(desc, i)
+				if _, has := genuine.Attrs[a]; has {
+					f.Value = "forged"
+					fc.Attrs[a] = f.credValue() // (still passes the field's filter)
+				}
+			}
+		}
+		for a, v := range genuine.Attrs {
+			if _, has := fc.Attrs[a]; !has {
+				fc.Attrs[a] = v
+			}
+		}
+		ex := &c02Extra{Name: c02ExtraMembers[d.Arg%len(c02ExtraMembers)], Arr: d.Arg%2 == 1, Cred: fc}
+		vp.Extra = append(vp.Extra, ex)
+		r.Map[k].Outside = ex
 	// --- verification ---
 	case "bad_vp_sig":
 		vp := r.pickVP(d.Arg)
@@ -553,7 +618,7 @@ var c02LongWindows = []struct {
 var c02DefectOrder = []string{
 	"nothing_presented",
 	"signer_not_subject", "foreign_cred_in_vp", "mixed_subjects", "mixed_subjects_via_empty_vp",
-	"foreign_definition", "unfulfilled", "forged_map",
+	"foreign_definition", "unfulfilled", "forged_map", "forged_map_outside",
 	"bad_vp_sig", "bad_vc_sig", "cred_revoked", "cred_expired",
 	"aud_wrong", "aud_absent", "aud_near_miss", "aud_equivalent", "aud_array_contains", "validity_long", "validity_no_exp", "validity_stale", "nonce_missing",
 	"scope_unknown", "scope_other", "scope_near_miss", "param_missing", "garbage",
@@ -588,10 +653,13 @@ func (fx *c02Fixture) render(x *h.Ctx, r *c02Request) c02Rendered {
 			}
 			format = vp.Creds[e.Cred].Format
 		}
+		if e.Outside != nil {
+			path, format = e.Outside.path(), e.Outside.Cred.Format
+		}
 		inner := map[string]any{"id": e.ID, "format": format, "path": path}
 		if len(r.VPs) == 1 {
 			dm = append(dm, inner)
-		} else if vp.Format == vc.JWTPresentationProofFormat {
+		} else if vp.Format == vc.JWTPresentationProofFormat || e.Outside != nil {
 			// the node's PEX envelope holds JWT presentations of an array already decoded, which its path_nested
 			// resolution cannot step into; a direct path into the array is what it resolves for them
 			dm = append(dm, map[string]any{"id": e.ID, "format": format, "path": fmt.Sprintf("$[%d]%s", e.VP, path[1:])})
